@@ -25,7 +25,7 @@ RULE = (
     "child re-creates the aggregator on the same file and resubmits all subjects. Crossed with the initial states {absent, "
     "empty, header only, header + 2 rows}; variants: graceful exit at the crash point (exit handlers run), crash during "
     "recovery (depth 2, sampled), two worker threads in the crashing session, output path given without extension. Plus "
-    "histories of 2..4 sessions with overlapping subject sets and sibling aggregators on dir/one.tsv and dir/two.tsv "
+    "histories of 2..4 sessions with overlapping subject sets and sibling aggregators on two files of one directory (one.tsv/two.tsv, results.model_a.tsv/results.model_b.tsv, run.tsv/run_2.tsv, a.b.tsv/a.tsv) "
     "(interleaved in one process; in two processes where one exits first). Non-trivial = every crash point / history; "
     "distinct = (initial state, variant, k) resp. hash of the history."
 )
@@ -53,7 +53,7 @@ def cases(tier, seed):
             yield {"fam": "crash", "state": st, "variant": var}
     for i in range(24 if tier == "quick" else 400):
         yield {"fam": "sessions", "i": i}
-    for i in range(16 if tier == "quick" else 200):
+    for i in range(36 if tier == "quick" else 360):
         yield {"fam": "siblings", "i": i}
 
 
@@ -308,14 +308,15 @@ def siblings(ctx, i):
 
     r = gen.rng(ctx.seed, "c17sib", i)
     d = tempfile.mkdtemp(prefix="c17b_", dir=os.environ.get("VERIF_TMP"))
-    one, two = os.path.join(d, "one.tsv"), os.path.join(d, "two.tsv")
+    n1, n2 = [("one.tsv", "two.tsv"), ("results.model_a.tsv", "results.model_b.tsv"), ("run.tsv", "run_2.tsv"), ("a.b.tsv", "a.tsv")][(i // 3) % 4]
+    one, two = os.path.join(d, n1), os.path.join(d, n2)
     subs1 = [str(x) for x in r.choice(NAMES, size=int(r.integers(2, 5)), replace=False)]
     subs2 = [str(x) for x in r.choice(NAMES, size=int(r.integers(2, 5)), replace=False)]
     if i % 3 == 0:
         subs2 = list(subs1)  # the same subject names go to both files
     err = os.path.join(d, "err.txt")
     mode = ["interleaved_one_process", "two_processes_one_exits_first", "sequential_processes"][i % 3]
-    det = {"mode": mode, "one": subs1, "two": subs2}
+    det = {"mode": mode, "one": subs1, "two": subs2, "files": [n1, n2]}
     feats = {"variant": "siblings", "mode": mode, "same_directory": True, "shared_names": bool(set(subs1) & set(subs2))}
     ctx.count("evaluations")
 
@@ -365,9 +366,9 @@ def siblings(ctx, i):
         return
     ctx.count("C17.sibling_scenarios_judged")
     ctx.nontrivial("siblings", mode, tuple(subs1), tuple(subs2))
-    ok = judge_file(ctx, one, sorted(set(subs1)), dict(det, file="one.tsv"), feats)
+    ok = judge_file(ctx, one, sorted(set(subs1)), dict(det, file=n1), feats)
     if ok:
-        judge_file(ctx, two, sorted(set(subs2)), dict(det, file="two.tsv"), feats)
+        judge_file(ctx, two, sorted(set(subs2)), dict(det, file=n2), feats)
 
 
 def run(case, ctx):
